@@ -32,6 +32,13 @@ def inline_silent_rules(expr: Expression, rules: Mapping[str, Rule]) -> Expressi
         # A reference to an undefined rule is left alone.
         rule = rules.get(expr.value)
         # A tagged reference must keep its tag for the pairs the rule produces.
-        if rule and rule.modifier & SILENT and not expr.tag:
+        # WHITESPACE and COMMENT are atomic whatever their modifier: their body
+        # must not be moved into a rule where implicit trivia is skipped.
+        if (
+            rule
+            and rule.modifier & SILENT
+            and not expr.tag
+            and rule.name not in ("WHITESPACE", "COMMENT")
+        ):
             return rule.expression
     return expr
